@@ -377,6 +377,8 @@ def _on_terms(terms_by_decl):
         out.append(z3.Implies(ilen(sq) == 0, maxabs(sq) == 0))
     for (st,) in terms_by_decl.get('card2', []):
         out.append(card2(st) >= 0)
+        if z3.is_quantifier(st) and st.is_lambda() and z3.is_false(st.body()):
+            out.append(card2(st) == 0)            # the empty set
         if z3.is_app(st) and st.decl().kind() == z3.Z3_OP_STORE:
             base, x, y, val = st.children()
             # Graph.lean card_insert / card_erase
